@@ -132,7 +132,7 @@ def run_str(case, norm=None, costs=None):
         lay = case.get("layout") or ("contig", "contig")
         junk = 0 if case["eos"] is None else case["eos"]
         ref = base._tensor_l(case["ref"], R, bf, lay[0], junk)
-        hyp = ref if case.get("alias") else base._tensor_l(case["hyp"], H, bf, lay[1], junk)
+        hyp = ref if (case.get("alias") and case["ref"] == case["hyp"]) else base._tensor_l(case["hyp"], H, bf, lay[1], junk)
         with warnings.catch_warnings():
             warnings.simplefilter("ignore")
             fn = _fn_str(case, norm, costs)
@@ -168,6 +168,22 @@ def _mer_tensors(case):
         ref = torch.tensor(case["ref"], dtype=torch.long).reshape(N, R)
         ref = ref if bf else ref.t().contiguous()
     logp = torch.tensor(case["logp"], dtype=torch.float32).reshape(N, M)
+    # 'mlayout' (not generated: see corpus/C02/*.pending and the report): the same logical hyp / 3-D ref as a slice of
+    # a larger buffer ('offset') or with the batch and sample dimensions swapped in storage ('swap')
+    ml = case.get("mlayout")
+
+    def relayout(t):
+        if ml == "offset":
+            buf = torch.zeros([d + 1 for d in t.shape], dtype=t.dtype)
+            buf[1:, 1:, 1:] = t
+            return buf[1:, 1:, 1:]
+        if ml == "swap":
+            d0, d1 = (0, 1) if bf else (1, 2)
+            return t.transpose(d0, d1).contiguous().transpose(d0, d1)
+        return t
+    hyp = relayout(hyp)
+    if case["ref3"]:
+        ref = relayout(ref)
     return logp, ref, hyp
 
 
